@@ -381,6 +381,19 @@ func (r *reader) initNodes(tr io.Reader) error {
 				return err
 			}
 			ent.Name = cleanEntryName(ent.Name)
+			if ent.Type == "reg" || ent.Type == "chunk" {
+				if ent.Size < 0 || ent.Offset < 0 || ent.ChunkOffset < 0 || ent.ChunkSize < 0 || ent.InnerOffset < 0 {
+					return fmt.Errorf("invalid entry %q: negative size or offset", ent.Name)
+				}
+				fileSize := ent.Size
+				if ent.Type == "chunk" {
+					fileSize = lastEntSize
+				}
+				if ent.ChunkOffset > fileSize || ent.ChunkSize > fileSize-ent.ChunkOffset {
+					return fmt.Errorf("invalid entry %q: chunk (offset=%d, size=%d) exceeds the file size %d",
+						ent.Name, ent.ChunkOffset, ent.ChunkSize, fileSize)
+				}
+			}
 			if ent.Type == "chunk" {
 				if lastEntBucketID == 0 {
 					return fmt.Errorf("chunk entry must not be the topmost")
